@@ -196,6 +196,17 @@ def keep_drop(repo, chk):
     okx = len(xdefs) == 1 and term_of(fn, xdefs[0].value, inline=False) == expected_term(m, f'self.get_vals({frame}, {col})') and any(x is xdefs[0] for x in ast.walk(col_loop))
     chk.expect(okx, 'C12.6c', 'origin', fn.site(xdefs[0]) if xdefs else fn.site(), ast.unparse(xdefs[0]) if xdefs else 'X = self.get_vals(dataframe, column)', 'the formulas\' variable X is the numeric parse of the current feature',
                'X (the variable the formulas are written in) must be bound to self.get_vals(dataframe, <current column>) inside the column loop')
+    # the kept columns reach the result
+    D = em.targets[0].value.id
+    dfs = [n for n in own_nodes(fn.node) if isinstance(n, ast.Assign) and isinstance(n.targets[0], ast.Name) and isinstance(n.value, ast.Call) and m.dotted(n.value.func) == 'pandas.DataFrame' and n.value.args and ast.unparse(n.value.args[0]) == D]
+    conc = [n for n in own_nodes(fn.node) if isinstance(n, ast.Assign) and isinstance(n.value, ast.Call) and m.dotted(n.value.func) == 'pandas.concat' and dfs and ast.unparse(n.value.args[0]) == f'[{frame}, {dfs[0].targets[0].id}]']
+    ok_c = bool(conc)
+    if ok_c:
+        par = parents(fn.node)
+        g = par.get(conc[0])
+        ok_c = (not isinstance(g, ast.If)) or term_of(fn, g.test, inline=False) in (expected_term(m, f'0 < len({D})'), expected_term(m, f'len({D}) != 0'), expected_term(m, D))
+    chk.expect(ok_c, 'C12.6e', 'R11', fn.site(conc[0]) if conc else fn.site(), ast.unparse(conc[0]) if conc else f'pd.concat([{frame}, pd.DataFrame({D})], axis=1)', 'every kept column is appended to the frame (skipped only when there is none)',
+               'the kept transformed columns must be appended (pd.concat of the frame with DataFrame(new_columns)), skipped only when no column was kept')
     it = term_of(fn, tr_loop.iter, inline=True)
     chk.expect(it == expected_term(m, 'self.transformer_collection.items()'), 'C12.6d', 'R13', fn.site(tr_loop), ast.unparse(tr_loop.iter), 'every selected transformer is applied to every numeric column', 'the loop must range over all selected transformers')
 
